@@ -100,6 +100,36 @@ func Gen(t *rapid.T, g GenCfg) []Op {
 		ops = append(ops, Op{Op: stack.Op{Kind: "rsp", Peer: a, Sess: -1, SEID0: rapid.IntRange(0, 3).Draw(t, "core2_seid0") != 0}},
 			Op{Op: stack.Op{Kind: "mod", Peer: a, Sess: two[1]}}, Op{Op: stack.Op{Kind: "mod", Peer: a, Sess: two[0]}})
 	}
+	// third scripted core (1 in 4, with reports and equal CP SEIDs across peers): a report for one node's session is outstanding
+	// and another node - which has a session with the same CP SEID - answers it, with the request's sequence number, SEID 0 or
+	// not; then the node the report was sent to answers.  Only the latter answer is an answer.
+	if g.Reports && g.SharedCP && rapid.IntRange(0, 3).Draw(t, "core3") == 0 {
+		a, b := 0, 1
+		if rapid.Bool().Draw(t, "swap3") {
+			a, b = 1, 0
+		}
+		if len(associated) < 2 {
+			ops = append(ops, Op{Op: stack.Op{Kind: "assoc", Peer: 1, Node: 1, Sess: -1}})
+			associated = append(associated, 1)
+		}
+		var pair []int
+		for _, nd := range []int{a, b} {
+			for cpNext[nd] < max(cpNext[a], cpNext[b]) {
+				cpNext[nd]++ // both nodes use the same number next
+			}
+		}
+		for _, nd := range []int{a, b} {
+			cpNext[nd]++
+			ops = append(ops, Op{Op: stack.Op{Kind: "est", Peer: nd, Node: nd, Sess: -1, CP: 0x10 + cpNext[nd], Rules: g.Rules.GenRules(t, true)}})
+			pair = append(pair, nsess)
+			nsess++
+		}
+		ops = append(ops, Op{Op: stack.Op{Kind: "report", Sess: pair[0], URRs: []uint32{1}, Trig: 2}},
+			Op{Op: stack.Op{Kind: "rsp", Peer: a, Sess: -1, SEID0: rapid.IntRange(0, 3).Draw(t, "core3_seid0") != 0, UseFrom: true, From: b, Dup: true}},
+			Op{Op: stack.Op{Kind: "mod", Peer: b, Sess: pair[1]}}, Op{Op: stack.Op{Kind: "mod", Peer: a, Sess: pair[0]}},
+			Op{Op: stack.Op{Kind: "rsp", Peer: a, Sess: -1, SEID0: rapid.IntRange(0, 3).Draw(t, "core3_seid0b") != 0}},
+			Op{Op: stack.Op{Kind: "mod", Peer: b, Sess: pair[1]}}, Op{Op: stack.Op{Kind: "mod", Peer: a, Sess: pair[0]}})
+	}
 	for i := 0; i < n; i++ {
 		switch rapid.SampledFrom(kinds).Draw(t, "op") {
 		case "assoc":
